@@ -381,10 +381,23 @@ func (p *Pair) Close(order []int) {
 	}
 }
 
+// CloseLateAccept closes a session that a pending Accept call returned after
+// the harness stopped pumping (Accept may win the race against Close).
+func (p *Pair) CloseLateAccept() {
+	p.S.Quiesce()
+	if p.accept != nil && p.accept.Done() {
+		if c, ok := p.accept.Val.(*kcp.UDPSession); ok && c != nil {
+			c.Close()
+		}
+		p.accept = nil
+	}
+}
+
 // Finish closes everything and lets the remaining callbacks and goroutines
 // run out. Blocked application calls return with an error after Close.
 func (p *Pair) Finish(order []int) {
 	p.Close(order)
+	p.CloseLateAccept()
 	p.S.Drain(60_000)
 	for _, c := range p.S.BlockedCalls() {
 		_ = c
